@@ -208,6 +208,42 @@ impl Prop for C13 {
                     }
                 }
             }
+            // partial parsing stopped by half a layout item (two-token layout template): no span of
+            // the returned tree may reach into the text that was not parsed
+            if algo == "LR" && case.layout_mode >= 5 {
+                for (ii, r) in rendered.iter().enumerate() {
+                    let k = match (0..r.spans.len()).find(|k| r.layouts.get(*k).map(|l| l.is_empty()).unwrap_or(false) && (*k + ii) % 2 == 0) {
+                        Some(k) => k,
+                        None => continue,
+                    };
+                    let at = r.spans[k].0;
+                    let mut text2 = r.text.clone();
+                    text2.insert(at, '~');
+                    st.sub();
+                    dynp::reset_steps(LR_STEPS);
+                    if let Ok(Ok(t)) = guarded(|| dynp::lr_parse(&text2, RunOpts { partial: true, skip_ws: true })) {
+                        if let Err((clause, msg)) = span_invariants(&text2, &t) {
+                            return Outcome::fail(
+                                format!("partial|{clause}|LR"),
+                                format!("grammar:\n{text}\ninput: {text2:?} (partial_parse on)\n{msg}\ntree: {}", canon_real(d, &t, true)),
+                            );
+                        }
+                        fn max_end(n: &dynp::Node) -> usize {
+                            match n {
+                                dynp::Node::Term { span, .. } => span.end.pos,
+                                dynp::Node::NonTerm { span, children, .. } => children.iter().map(max_end).fold(span.end.pos, usize::max),
+                            }
+                        }
+                        if max_end(&t) > at {
+                            return Outcome::fail(
+                                "partial|span-reaches-into-unparsed-input|LR".to_string(),
+                                format!("grammar:\n{text}\ninput: {text2:?} (partial_parse on; nothing can be parsed at offset {at})\na span of the tree ends at {}\ntree: {}", max_end(&t), canon_real(d, &t, true)),
+                            );
+                        }
+                        st.class("partial-parse-stopped-by-half-layout-item");
+                    }
+                }
+            }
             // the same inputs once more through ONE parser instance: positions and spans of
             // every tree must still refer to ITS input
             {
